@@ -130,6 +130,29 @@ class _Stub:
         return c
 
 
+# Reports received by the application listeners of the history being executed.  It lives outside the
+# lives on purpose: an object of an earlier life (or history) that is still told something shows here.
+_SINK = dict(hist=0, life=0, reports=[], foreign=0)
+REPORT_CAP = 200          # reports kept per event
+FOREIGN_CAP = 5000        # reports to listeners of finished histories after which replaying stops
+
+
+class AppListener:
+    """What an application attaches to a transfer it learns about through TransferAddedEvent."""
+
+    def __init__(self, key):
+        self.key = key
+        self.hist, self.life = _SINK['hist'], _SINK['life']
+
+    async def on_transfer_state_changed(self, transfer, old, new):
+        cur = (self.hist, self.life) == (_SINK['hist'], _SINK['life'])
+        if not cur:
+            _SINK['foreign'] += 1
+        if len(_SINK['reports']) < REPORT_CAP:
+            _SINK['reports'].append(dict(l=list(self.key), t=[transfer.username, transfer.remote_path, str(transfer.direction.value)],
+                                         cur=cur))
+
+
 _SETTINGS = []
 
 
@@ -141,7 +164,7 @@ def _settings():
     return _SETTINGS[0]
 
 
-async def _life(loop, dirpath, ops, restart, events, down0=()):
+async def _life(loop, dirpath, ops, restart, events_out, down0=()):
     from aioslsk.events import EventBus
     from aioslsk.exceptions import InvalidStateTransition, PeerConnectionError
     from aioslsk.transfer.cache import TransferShelveCache
@@ -149,8 +172,28 @@ async def _life(loop, dirpath, ops, restart, events, down0=()):
     from aioslsk.transfer.model import AbortReason, FailReason, Transfer, TransferDirection
     from aioslsk.user.manager import UserManager
 
+    from aioslsk.events import TransferAddedEvent
+    _SINK['life'] += 1
+    del _SINK['reports'][:]
+
+    class _Events:
+        """every event record carries the reports application listeners received since the previous one"""
+
+        def append(self, e):
+            e['reports'] = list(_SINK['reports'])
+            del _SINK['reports'][:]
+            events_out.append(e)
+    events = _Events()
     settings = _settings()
     bus = EventBus()
+    app_listeners = []
+
+    def on_added(event):              # one application listener per transfer the client announces
+        t = event.transfer
+        lst = AppListener((t.username, t.remote_path, str(t.direction.value)))
+        app_listeners.append(lst)
+        t.state_listeners.append(lst)
+    bus.register(TransferAddedEvent, on_added)
     network = _Stub()
     sent = []
     down = set(down0)                 # peers to whom a queue request cannot be delivered
@@ -549,6 +592,7 @@ def run_history(ops, root, cross_process=False, clocks=(1000.0,)):
     dirpath = tempfile.mkdtemp(dir=root)
     events = []
     down = set()
+    _SINK['hist'] += 1
     try:
         for i, (restart, life_ops) in enumerate(split_lives(ops)):
             ev = (run_life_subprocess if cross_process else run_life)(dirpath, life_ops, restart, sorted(down),
@@ -563,6 +607,8 @@ def run_history(ops, root, cross_process=False, clocks=(1000.0,)):
                 break
     finally:
         shutil.rmtree(dirpath, ignore_errors=True)
+    for e in events:
+        e.setdefault('reports', [])
     return events
 
 
@@ -573,6 +619,7 @@ def fixture_history(root, cross_process=False):
         for fn in os.listdir(FIXTURE):
             if fn.startswith('transfers'):
                 shutil.copy(os.path.join(FIXTURE, fn), dirpath)
+        _SINK['hist'] += 1
         virgin = [dict(k=list(k), st='VIRGIN', rq=False, fr='none', ar='none', lp='none', fs=-1, bt=0) for k in FIXTURE_KEYS]
         # what the old release did is not executed: the two add events describe the file's content
         events = [dict(ev='add', k=list(FIXTURE_KEYS[0]), mem=virgin[:1], virtual=True),
@@ -585,6 +632,8 @@ def fixture_history(root, cross_process=False):
                 ('stopwrite',), ('restart',)]
         for restart, life_ops in split_lives(tail):
             events += use(dirpath, life_ops, restart)
+        for e in events:
+            e.setdefault('reports', [])
         return events
     finally:
         shutil.rmtree(dirpath, ignore_errors=True)
@@ -603,6 +652,13 @@ def _fingerprint(tid, info, trace):
     ev = info.get('event') or {}
     kind = ev.get('ev')
     prop = info.get('name') if info.get('kind') == 'property' else None
+    reps = ev.get('reports') or []
+    if any(r['l'] != r['t'] for r in reps):
+        return 'C17:state-listeners:change-reported-to-listener-of-another-transfer'
+    if any(not r['cur'] for r in reps):
+        return 'C17:state-listeners:change-reported-to-object-of-earlier-client'
+    if len(reps) != len({json.dumps(r, sort_keys=True) for r in reps}):
+        return 'C17:state-listeners:change-reported-more-than-once'
     if kind in ('exc', 'loop_exception'):
         return f"C17:{ev.get('during', 'loop')}:raises:{ev.get('type', 'exception')}"
     if kind in ('write', 'stopwrite'):
@@ -673,6 +729,8 @@ def _locate(trace):
     for i, e in enumerate(trace):
         if e['ev'] in ('exc', 'loop_exception'):
             return i, e
+        if any(r['l'] != r['t'] or not r['cur'] for r in e.get('reports') or []):
+            return i, e
         if e['ev'] in ('write', 'stopwrite', 'oldwrite'):
             if e['ev'] != 'oldwrite' and sorted(json.dumps(r, sort_keys=True) for r in e['mem']) != \
                     sorted(json.dumps(r, sort_keys=True) for r in e['readback']):
@@ -700,7 +758,8 @@ def _locate(trace):
 def _corruptions(traces, limit=8):
     """Corrupt one recorded field per trace; each result must be rejected."""
     out = []
-    kinds = ['drop_readback', 'loaded_inprogress', 'loaded_field', 'loaded_dup', 'sent_missing', 'loaded_rq']
+    kinds = ['drop_readback', 'loaded_inprogress', 'loaded_field', 'loaded_dup', 'sent_missing', 'loaded_rq',
+             'report_foreign', 'report_missing']
     for tr in traces:
         if len(out) >= limit:
             break
@@ -722,6 +781,12 @@ def _corruptions(traces, limit=8):
                 done = True
             elif kind == 'loaded_rq' and e['ev'] == 'restart' and e['mem']:
                 e['mem'][0]['rq'] = True
+                done = True
+            elif kind == 'report_foreign' and e['ev'] == 'mutate' and e['reports']:
+                e['reports'].append(dict(l=['zz', 'other', '1'], t=e['reports'][0]['t'], cur=True))
+                done = True
+            elif kind == 'report_missing' and e['ev'] == 'mutate' and e['reports']:
+                e['reports'] = []
                 done = True
             elif kind == 'sent_missing' and e['ev'] == 'quiesce' and e['sent']:
                 e['sent'] = []
@@ -870,6 +935,7 @@ def run(chk: Check, args):
         dl_dir = os.path.join(root, 'downloads')
         os.makedirs(dl_dir)
         n_sub = 0
+        runaway = 0
         for hi, (h, conc) in enumerate(todo):
             ops = concrete_ops(h, conc, dl_dir, chk.rng)
             cross = thorough and hi % 400 == 0
@@ -881,6 +947,12 @@ def run(chk: Check, args):
             metas.append(dict(history=h, concretisation=conc.cid, source=hist[h][0], cross_process=cross, ops=ops,
                               clocks=list(clocks)))
             chk.count((h, conc.cid), nontrivial=_nontrivial(ev))
+            if _SINK['foreign'] > FOREIGN_CAP:
+                # listeners of finished histories keep being told about changes of transfers of later ones:
+                # every further history costs more; stop here, the recorded traces already show it
+                runaway = hi + 1
+                chk.log(f'runaway notifications after {runaway} histories: replaying stopped')
+                break
         for cross in ((False, True) if thorough else (False,)):
             ev = fixture_history(root, cross_process=cross)
             traces.append(ev)
@@ -901,6 +973,10 @@ def run(chk: Check, args):
             if ev is not None:
                 info.update(kind='rejected (not diagnosed with TLC; first inconsistent observation)', at=at + 1, event=ev)
     chk.apply_verdicts(v, traces, _fingerprint, meta_of=lambda tid: metas[tid - 1])
+    if runaway:
+        chk.violation('C17:state-listeners:runaway-notifications',
+                      f'after {runaway} histories more than {FOREIGN_CAP} state-change reports had gone to listeners of '
+                      f'clients of finished histories; replaying was stopped', dict(meta=metas[-1], trace=traces[-1]))
     chk.log(f'trace validation: {len(v.accepted)} accepted, {len(v.rejected)} rejected')
     if chk.violations or chk.known_hits:
         import collections
@@ -938,6 +1014,9 @@ def run(chk: Check, args):
         'must be attempted like a fresh one; every life runs on its own monotonic clock (origin 1000 s virtual, thorough: '
         'also lower / far higher origins), as a new process or a reboot does not continue the old clock',
         'persisted sizes cover the boundaries filesize {None, 0, 1, n} x bytes {0, part, all}',
+        'state-change reports are observed by one application listener per transfer, attached from a TransferAddedEvent '
+        'handler (as an application would); replaying stops once more than FOREIGN_CAP reports went to listeners of '
+        'finished histories (runaway guard)',
         'cache files of older releases are produced by the harness with the pinned key scheme '
         'sha256(username+remote_path+direction) and, for fmt=legacy, the field set of the repository fixture',
     ]
